@@ -163,7 +163,10 @@ fn parse_elf(ops: &[String]) -> ElfSpec {
     for l in ops {
         let w: Vec<&str> = l.split_whitespace().collect();
         match w.first().copied() {
-            Some("seg") if w.len() == 4 => spec.segs.push(Seg { off: num(&w, 1), vaddr: num(&w, 2), filesz: num(&w, 3) }),
+            Some("seg") if w.len() == 4 || w.len() == 5 => {
+                spec.segs.push(Seg { off: num(&w, 1), vaddr: num(&w, 2), filesz: num(&w, 3), memsz: w.get(4).and_then(|s| s.parse().ok()) })
+            }
+            Some("ehpcrel") if w.len() == 2 => spec.eh_pcrel = Some(num(&w, 1)),
             Some("sec") if w.len() == 5 => spec.secs.push(Sec {
                 kind: match w[1] {
                     "t" => SecKind::Text,
@@ -204,6 +207,7 @@ fn write_breakpad(ops: &[String]) -> Vec<u8> {
     let mut out = Vec::new();
     out.extend_from_slice(b"MODULE Linux x86_64 BE4E976C325246EE9D6B7847A670B2A90 example-linux\n");
     out.extend_from_slice(b"INFO CODE_ID 6C974EBE5232EE469D6B7847A670B2A9\nFILE 0 /src/a.c\nFILE 1 /src/b.c\n");
+    out.extend_from_slice(b"INLINE_ORIGIN 0 inlined_a\nINLINE_ORIGIN 1 inlined_b(int)\n");
     let mut k = 0u32;
     for l in ops {
         let w: Vec<&str> = l.split_whitespace().collect();
@@ -219,7 +223,13 @@ fn write_breakpad(ops: &[String]) -> Vec<u8> {
                 let (a, s) = (num(&w, 1), num(&w, 2));
                 out.extend_from_slice(format!("FUNC {}{:x} {:x} 0 ", if k % 5 == 4 { "m " } else { "" }, a, s).as_bytes());
                 out.extend_from_slice(&name(w[3]));
-                out.push(b'\n');
+                // every fourth FUNC line ends in CRLF
+                out.extend_from_slice(if k % 4 == 2 { b"\r\n" } else { b"\n" });
+                // inlinee records of the block (nested two deep), for functions that have room
+                if k % 3 == 1 && s >= 4 {
+                    out.extend_from_slice(format!("INLINE 0 {} 0 0 {:x} {:x}\n", 20 + k, a, s.min(0xffff_ffff) / 2).as_bytes());
+                    out.extend_from_slice(format!("INLINE 1 {} 1 1 {:x} {:x}\n", 30 + k, a, (s.min(0xffff_ffff) / 4).max(1)).as_bytes());
+                }
                 // line records of the block (irrelevant for the symbol, but they make the block length vary)
                 for j in 0..(k % 3) as u64 {
                     out.extend_from_slice(format!("{:x} {:x} {} {}\n", a + j * 2, 2, 10 + j, j % 2).as_bytes());
@@ -239,17 +249,23 @@ fn write_breakpad(ops: &[String]) -> Vec<u8> {
     out
 }
 
-/// returns the bytes and, per JIT_CODE_LOAD record, (file offset of the code bytes, code length)
+/// returns the bytes and, per complete JIT_CODE_LOAD record, (file offset of the code bytes, code length).
+/// Op lines: `load <codelen> <namehex>`, `other <bodylen>` (a JIT_CODE_MOVE record), `dbg <n>` (a JIT_CODE_DEBUG_INFO
+/// record with n line entries for the load that follows), `be` (big-endian file), `cut <k>` (the last k bytes of the
+/// file are missing: a dump that is still being written).
 fn write_jitdump(ops: &[String]) -> (Vec<u8>, Vec<(u64, u64)>) {
+    let be = ops.iter().any(|l| l.trim() == "be");
+    let w32 = |out: &mut Vec<u8>, x: u32| out.extend_from_slice(&if be { x.to_be_bytes() } else { x.to_le_bytes() });
+    let w64 = |out: &mut Vec<u8>, x: u64| out.extend_from_slice(&if be { x.to_be_bytes() } else { x.to_le_bytes() });
     let mut out = Vec::new();
-    out.extend_from_slice(&0x4A695444u32.to_le_bytes()); // "DTiJ" on disk = little endian
-    out.extend_from_slice(&1u32.to_le_bytes());
-    out.extend_from_slice(&40u32.to_le_bytes());
-    out.extend_from_slice(&62u32.to_le_bytes());
-    out.extend_from_slice(&0u32.to_le_bytes());
-    out.extend_from_slice(&4711u32.to_le_bytes());
-    out.extend_from_slice(&123456789u64.to_le_bytes());
-    out.extend_from_slice(&0u64.to_le_bytes());
+    w32(&mut out, 0x4A695444); // magic: "DTiJ" on disk in a little-endian file, "JiTD" in a big-endian one
+    w32(&mut out, 1);
+    w32(&mut out, 40);
+    w32(&mut out, 62);
+    w32(&mut out, 0);
+    w32(&mut out, 4711);
+    w64(&mut out, 123456789);
+    w64(&mut out, 0);
     let mut layout = Vec::new();
     let mut index = 0u64;
     for l in ops {
@@ -259,15 +275,15 @@ fn write_jitdump(ops: &[String]) -> (Vec<u8>, Vec<(u64, u64)>) {
                 let len = num(&w, 1);
                 let name = unhex(w[2]);
                 let total = 16 + 40 + name.len() as u64 + 1 + len;
-                out.extend_from_slice(&0u32.to_le_bytes());
-                out.extend_from_slice(&(total as u32).to_le_bytes());
-                out.extend_from_slice(&(1000 + index).to_le_bytes());
-                out.extend_from_slice(&4711u32.to_le_bytes());
-                out.extend_from_slice(&4711u32.to_le_bytes());
-                out.extend_from_slice(&(0x7000_0000u64 + index * 0x1000).to_le_bytes());
-                out.extend_from_slice(&(0x7000_0000u64 + index * 0x1000).to_le_bytes());
-                out.extend_from_slice(&len.to_le_bytes());
-                out.extend_from_slice(&index.to_le_bytes());
+                w32(&mut out, 0);
+                w32(&mut out, total as u32);
+                w64(&mut out, 1000 + index);
+                w32(&mut out, 4711);
+                w32(&mut out, 4711);
+                w64(&mut out, 0x7000_0000u64 + index * 0x1000);
+                w64(&mut out, 0x7000_0000u64 + index * 0x1000);
+                w64(&mut out, len);
+                w64(&mut out, index);
                 out.extend_from_slice(&name);
                 out.push(0);
                 layout.push((out.len() as u64, len));
@@ -276,13 +292,35 @@ fn write_jitdump(ops: &[String]) -> (Vec<u8>, Vec<(u64, u64)>) {
             }
             Some("other") if w.len() == 2 => {
                 let len = num(&w, 1);
-                out.extend_from_slice(&1u32.to_le_bytes()); // JIT_CODE_MOVE: skipped by the index
-                out.extend_from_slice(&((16 + len) as u32).to_le_bytes());
-                out.extend_from_slice(&(1000 + index).to_le_bytes());
+                w32(&mut out, 1); // JIT_CODE_MOVE: skipped by the index
+                w32(&mut out, (16 + len) as u32);
+                w64(&mut out, 1000 + index);
                 out.extend(std::iter::repeat(0u8).take(len as usize));
+            }
+            Some("dbg") if w.len() == 2 => {
+                // JIT_CODE_DEBUG_INFO for the next load: its line entries start 2 bytes into the code, so that the
+                // first two code bytes have debug info but no line entry
+                let n = num(&w, 1);
+                let code_addr = 0x7000_0000u64 + index * 0x1000;
+                w32(&mut out, 2);
+                w32(&mut out, (16 + 16 + 21 * n) as u32);
+                w64(&mut out, 1000 + index);
+                w64(&mut out, code_addr);
+                w64(&mut out, n);
+                for j in 0..n {
+                    w64(&mut out, code_addr + 2 + j);
+                    w32(&mut out, 10 + j as u32);
+                    w32(&mut out, 0);
+                    out.extend_from_slice(b"a.js\0");
+                }
             }
             _ => {}
         }
+    }
+    if let Some(k) = ops.iter().find_map(|l| l.strip_prefix("cut ")).and_then(|s| s.trim().parse::<usize>().ok()) {
+        let keep = out.len().saturating_sub(k).max(40);
+        out.truncate(keep);
+        layout.retain(|&(off, len)| off + len <= keep as u64);
     }
     (out, layout)
 }
@@ -923,7 +961,9 @@ fn gen_obj(rng: &mut Rng, family: u64) -> Vec<String> {
     // segments
     let nseg = if no_segments { 0 } else { rng.range(1, 3) };
     let mut ranges: Vec<(u64, u64, u64)> = Vec::new();
-    let mut cur_off = 0u64;
+    // the first segment usually starts at file offset 0 (then file offset == relative address throughout it);
+    // sometimes not
+    let mut cur_off = if rng.chance(1, 4) { rng.range(1, 4) * 0x800 } else { 0 };
     let mut cur_addr = base;
     for i in 0..nseg {
         let size = rng.range(1, 8) * 0x800;
@@ -937,10 +977,16 @@ fn gen_obj(rng: &mut Rng, family: u64) -> Vec<String> {
         } else {
             (cur_off, size)
         };
-        ops.push(format!("seg {off} {vaddr} {filesz}"));
+        // a segment with bss: `p_memsz > p_filesz` (the address space continues behind the file range)
+        let bss = if rng.chance(1, 5) { rng.range(1, 8) * 0x400 } else { 0 };
+        if bss > 0 && family != 5 {
+            ops.push(format!("seg {off} {vaddr} {filesz} {}", filesz + bss));
+        } else {
+            ops.push(format!("seg {off} {vaddr} {filesz}"));
+        }
         ranges.push((off, filesz, vaddr));
         cur_off = cur_off.wrapping_add(size);
-        cur_addr = vaddr.wrapping_add(size);
+        cur_addr = vaddr.wrapping_add(size).wrapping_add(bss);
     }
     // sections
     let nsec = rng.range(1, 3);
@@ -1095,6 +1141,12 @@ fn gen_obj(rng: &mut Rng, family: u64) -> Vec<String> {
             interesting.insert((initial as u128 + len as u128) as u64 % (1 << 32));
         }
     }
+    // half of the files with FDEs carry `.eh_frame` as compilers write it: zR CIEs, pc-relative sdata4 pointers, the
+    // section at a non-zero address (the writer falls back to absolute pointers if an FDE is out of reach)
+    if ops.iter().any(|l| l.starts_with("fde ")) && rng.chance(1, 2) {
+        let near = secs[0].1.wrapping_add(rng.range(1, 0x40) * 0x1000);
+        ops.push(format!("ehpcrel {near}"));
+    }
     // the generator's claim that loading is outside the hypotheses (an exported symbol below the base, an FDE
     // whose end overflows): computed from the description, not assumed from the family
     let export_below_base = ops.iter().any(|l| {
@@ -1213,8 +1265,31 @@ fn gen_jit(rng: &mut Rng, zero_len: bool) -> Vec<String> {
         if rng.chance(1, 4) {
             pseudo.push(format!("other {}", rng.below(64)));
         }
+        if rng.chance(1, 4) {
+            pseudo.push(format!("dbg {}", rng.below(4)));
+            if rng.chance(1, 5) {
+                pseudo.push(format!("dbg {}", rng.below(3))); // a second one: only the last pending record counts
+            }
+        }
         let len = if zero_len && rng.chance(1, 3) { 0 } else { *rng.pick(&[1u64, 1, 2, 4, 16, 33, 64]) };
         pseudo.push(format!("load {len} {}", name_hex(&pick_name(rng, k as usize))));
+    }
+    if rng.chance(1, 6) {
+        pseudo.push(format!("dbg {}", rng.below(3))); // a trailing debug-info record without a load
+    }
+    if rng.chance(1, 5) {
+        pseudo.insert(0, "be".to_string());
+    }
+    if n > 0 && rng.chance(1, 5) {
+        // a dump that is still being written: cut inside the last record (its code, its name, its header) or
+        // exactly at its end
+        let k = match rng.below(4) {
+            0 => 1,
+            1 => rng.range(1, 12),
+            2 => rng.range(1, 90),
+            _ => rng.range(1, 200),
+        };
+        pseudo.push(format!("cut {k}"));
     }
     ops.extend(pseudo.iter().cloned());
     let (_, layout) = write_jitdump(&pseudo);
@@ -1353,6 +1428,15 @@ impl Prop for C05 {
                 if spec.segs.is_empty() {
                     stats.bump("elf_without_segments");
                 }
+                if spec.segs.iter().any(|s| s.memsz.is_some()) {
+                    stats.bump("elf_with_memsz_above_filesz");
+                }
+                if spec.segs.first().map(|s| s.off != 0).unwrap_or(false) {
+                    stats.bump("elf_first_segment_not_at_offset_0");
+                }
+                if let Some(a) = spec.eh_pcrel {
+                    stats.bump(if pcrel_representable(&spec.fdes, a) { "elf_eh_frame_pcrel_two_cies" } else { "elf_eh_frame_pcrel_out_of_reach" });
+                }
                 let reload = || load_map(bytes.clone(), "gen.so").ok();
                 match catch_unwind(AssertUnwindSafe(|| load_map(bytes.clone(), "gen.so"))) {
                     Err(_) => {
@@ -1376,6 +1460,11 @@ impl Prop for C05 {
                 let (bytes, layout) = write_jitdump(ops);
                 if layout.iter().any(|l| l.1 == 0) {
                     stats.bump("jit_with_zero_length_records");
+                }
+                for (key, counter) in [("dbg ", "jit_with_debug_info_records"), ("cut ", "jit_truncated_tail"), ("be", "jit_big_endian")] {
+                    if ops.iter().any(|l| l.starts_with(key)) {
+                        stats.bump(counter);
+                    }
                 }
                 let bytes: Arc<[u8]> = bytes.into();
                 let reload = || load_map(bytes.clone(), "jit-1.dump").ok();
